@@ -400,7 +400,7 @@ def fut_seq(c, name, kind="deque"):
                for k in range(lo, min(hi, lo + 64))]
     else:
         n = c.rng.randint(0, 4)
-        ids = [c.rng.randint(0, 5) for _ in range(n)]
+        ids = c.rng.sample(range(0, 6), n)      # distinct futures (a queue never holds the same future twice)
     c.values[name] = ids
     if any(i < 0 for i in ids):
         c.assume_failed = True
@@ -693,7 +693,7 @@ def pair_seq(c, name):
             fi = c.model.eval(PS.fut(z3.Select(arr, z3.IntVal(k))), model_completion=True).as_long()
             items.append((it, fi))
     else:
-        items = [(c.rng.randint(-2, 9), c.rng.randint(0, 5)) for _ in range(c.rng.randint(0, 3))]
+        items = [(c.rng.randint(-2, 9), fi) for fi in c.rng.sample(range(0, 6), c.rng.randint(0, 3))]
     c.values[name] = items
     if any(fi < 0 for _, fi in items):
         c.assume_failed = True
